@@ -263,6 +263,8 @@ def cases(tier):
         yield Case("forms:%d" % k, {"kind": "forms", "k": k}, True)
     for t in _tuples(tier):
         yield Case(case_id(t), {"sensors": [list(s) for s in t]}, _nontrivial(t))
+    for threads in (1, 2):
+        yield Case("reassign:threads=%d" % threads, {"kind": "reassign", "threads": threads}, True)
     for name, spec, atm, wl, tiers in SPECIALS:
         if tiers == "both" or tiers == tier:
             yield Case("special:" + name, {"kind": "special", "spec": [list(x) for x in spec], "atm": atm, "wl": wl}, True)
@@ -369,6 +371,8 @@ def evaluate(p):
         return _forms(o, p["k"])
     if p.get("kind") == "special":
         return _special(o, p)
+    if p.get("kind") == "reassign":
+        return _reassign(o, p)
     spec = [tuple(s) for s in p["sensors"]]
     n = len(spec)
     base = "5" * n
@@ -471,6 +475,56 @@ def evaluate(p):
                 diff = numpy.where(both_nan, 0.0, Mp.astype(float) - ser.astype(float))
                 o.close("mp_path_agrees", _maxabs(diff) / max(_maxabs(numpy.nan_to_num(ser)), 1e-300), TOL_MP)
         o.outcome(numpy.round(M0 / max(_maxabs(M0), 1e-300), 4))
+    return o
+
+
+def _reassign(o, p):
+    """One object used as in a fitting loop: a configuration attribute is re-assigned, the matrix is made again, and
+    must be the matrix of a fresh object with the current configuration (the builder derives the whole geometry from
+    its attributes on every build).  One attribute at a time, then all of them back to the start."""
+    from aotools.turbulence import slopecovariance as sc
+    cfg = {"pupil_masks": [mask_array("2:1110"), mask_array("2:1011")], "telescope_diameter": D_TEL,
+           "subap_diameters": [1.0, 1.0], "gs_altitudes": [0.0, 90000.0], "gs_positions": [[0.0, 0.0], [15.0, -35.0]],
+           "wfs_wavelengths": [500e-9, 700e-9], "layer_altitudes": [0.0, 5000.0], "layer_r0s": [0.2, 0.3],
+           "layer_L0s": [25.0, 10.0]}
+    steps = [("gs_positions", [[30.0, 0.0], [-20.0, 25.0]]), ("gs_altitudes", [20000.0, 0.0]),
+             ("layer_altitudes", [1000.0, 12000.0]), ("subap_diameters", [0.5, 1.0]),
+             ("pupil_masks", [mask_array("2:0111"), mask_array("2:1101")]), ("layer_r0s", [0.5, 0.1]),
+             ("layer_L0s", [100.0, 5.0]), ("wfs_wavelengths", [700e-9, 589e-9]), ("telescope_diameter", 1.5),
+             ("gs_positions", numpy.array([[0.0, 10.0], [5.0, 5.0]])), ("layer_altitudes", numpy.array([0.0, 5000.0]))]
+    steps += [(k, v) for k, v in cfg.items() if k not in ("layer_altitudes",)]      # ... and back to the start
+
+    def make(c, threads):
+        cm = sc.CovarianceMatrix(2, [m.copy() for m in c["pupil_masks"]], c["telescope_diameter"], list(c["subap_diameters"]),
+                                 list(c["gs_altitudes"]), [list(x) for x in numpy.asarray(c["gs_positions"])], list(c["wfs_wavelengths"]), 2,
+                                 list(numpy.asarray(c["layer_altitudes"])), list(c["layer_r0s"]), list(c["layer_L0s"]), threads)
+        return cm
+
+    def build(cm):
+        saved = sc.multiprocessing
+        sc.multiprocessing = _InlineMP
+        try:
+            with numpy.errstate(all="ignore"):
+                return numpy.asarray(cm.make_covariance_matrix()).astype(float)
+        finally:
+            sc.multiprocessing = saved
+
+    obj = make(cfg, p["threads"])
+    cur = dict(cfg)
+    first = build(obj)
+    o.close("reassigned_object_equals_fresh_object", _maxabs(first - build(make(cur, p["threads"]))) / max(_maxabs(first), 1e-300), 0.0, sub="step=0:initial")
+    for k, (name, val) in enumerate(steps):
+        cur[name] = val
+        setattr(obj, name, val.copy() if isinstance(val, numpy.ndarray) else (list(val) if isinstance(val, list) else val))
+        got = build(obj)
+        want = build(make(cur, p["threads"]))
+        o.stat("lib_calls", 2)
+        if got.shape != want.shape:
+            o.check("reassigned_object_equals_fresh_object", False, sub="step=%d:%s" % (k + 1, name), detail="shape %s" % (got.shape,))
+            continue
+        o.close("reassigned_object_equals_fresh_object", _maxabs(got - want) / max(_maxabs(want), 1e-300), 1e-6,
+                sub="step=%d:%s" % (k + 1, name))
+    o.outcome(numpy.round(first / max(_maxabs(first), 1e-300), 4))
     return o
 
 
